@@ -111,7 +111,20 @@ def observe_case(mod, d, c, how="ctor"):
                 for k, val in build_kwargs(mod, c["K"]).items():
                     setattr(q, k, val)
             if c["mod"]["n"]:
-                setattr(q, c["mod"]["n"], observe.build_value(mod, c["mod"]["v"]))
+                newv = observe.build_value(mod, c["mod"]["v"])
+                cur = getattr(q, c["mod"]["n"], None)
+                named = {x["n"] for x in c["K"]}
+                if c["mod"]["n"] not in named and isinstance(cur, list) and isinstance(newv, list):
+                    cur[:] = newv                       # change the default-constructed list IN PLACE
+                elif c["mod"]["n"] not in named and isinstance(cur, observe.Packet) and isinstance(newv, observe.Packet) \
+                        and type(cur) is type(newv):
+                    for nm2, _f, _p, _u in type(newv).get_fields():
+                        try:
+                            setattr(cur, nm2, getattr(newv, nm2))   # ... or the nested default packet in place
+                        except AttributeError:
+                            pass
+                else:
+                    setattr(q, c["mod"]["n"], newv)
             e["cv2"] = observe.abs_packet(q, visible=True)["vals"]
             e["cv1"] = observe.abs_packet(obj, visible=True)["vals"]
         except Exception as ex:
@@ -192,6 +205,9 @@ def compare(obs, c):
             same = e["cv1"] == e["cv2"]
             if e.get("eq") != same or e.get("ne") != (not same):
                 mm.append("C20_Structural")
+            has_desc = any(f.get("desc", {}).get("kind", "none") != "none" for f in obs["prog"][obs["root"]]["fields"])
+            if not has_desc and e.get("eq") != c.get("eqexp", same):
+                mm.append("C20_ChangeMakesUnequal")     # changing one field of q must make it unequal to p (and only that)
             if not e.get("eq_self") or e.get("eq_none") or not e.get("ne_none") or e.get("eq_other"):
                 mm.append("C20_Structural")
             if "parsed_eq" in e and not e["parsed_eq"]:
